@@ -198,6 +198,41 @@ class RecordT(Ty):
         return SObj(self.cls, {k: t.fresh(I, f"{name}.{k}") for k, t in self.fields.items()}, frozen=self.frozen)
 
 
+class MapT(Ty):
+    """dict keyed by ints (or int enums) with lazily materialised values of `vtype`."""
+
+    def __init__(self, vtype, default_factory=None, card=False, keys=None):
+        self.vtype, self.default_factory, self.card, self.keys = vtype, default_factory, card, keys
+
+    def fresh(self, I, name):
+        from . import smap
+
+        has = z3.Array(I.ctx.fresh_name(name + ".has"), z3.IntSort(), z3.BoolSort())
+        card = None
+        if self.card:
+            card = I.ctx.fresh_int(name + ".len")
+            I.ctx.assume(card >= 0)
+        m = smap.SMap(name, has, self.vtype, None, self.default_factory, card)
+        if self.keys is not None:
+            lo, hi = self.keys
+            x = z3.Int(I.ctx.fresh_name("k"))
+            I.ctx.assume(z3.ForAll([x], z3.Implies(z3.Select(has, x), z3.And(x >= lo, x <= hi))))
+        return m
+
+
+class CollT(Ty):
+    """list / set of objects with identity (futures, callables)."""
+
+    def __init__(self, etype, maybe_more=True):
+        self.etype, self.maybe_more = etype, maybe_more
+
+    def fresh(self, I, name):
+        from . import smap
+
+        rn = I.ctx.fresh_bool(name + ".more") if self.maybe_more else z3.BoolVal(False)
+        return smap.SColl(name, self.etype, [], rn)
+
+
 class ExtT(Ty):
     def __init__(self, ext: ExtClass):
         self.ext = ext
@@ -266,6 +301,14 @@ class T:
     @staticmethod
     def bytes_(maxlen=None, minlen=None, mutable=False):
         return BytesT(mutable, maxlen, minlen)
+
+    @staticmethod
+    def map(vtype, **kw):
+        return MapT(vtype, **kw)
+
+    @staticmethod
+    def coll(etype, **kw):
+        return CollT(etype, **kw)
 
     @staticmethod
     def typed_int(cls):
